@@ -499,8 +499,10 @@ def main_run(mod, tier: str, seed: int, nshards: int | None, only: str | None) -
         ev["coverage"]["violation_buckets"] = [{"sub": v["sub"], "signature": v["signature"], "replay": os.path.relpath(p, VERIF_DIR)} for v, p in replays]
     harness_bad = bool(tot["errors"]) or evaluations < 1 or (len(nt) < 2 and not only)
     if not only:  # partial runs never overwrite the evidence of a full run
-        os.makedirs(os.path.join(VERIF_DIR, "evidence"), exist_ok=True)
-        evp = os.path.join(VERIF_DIR, "evidence", f"{pid}.json")
+        # evidence describes /repo itself: runs against a scratch copy (mutation driver) write elsewhere
+        evdir = "evidence" if VERIF_REPO == os.path.realpath("/repo") else os.path.join(".work", "evidence-scratch")
+        os.makedirs(os.path.join(VERIF_DIR, evdir), exist_ok=True)
+        evp = os.path.join(VERIF_DIR, evdir, f"{pid}.json")
         with open(evp, "w") as f:
             json.dump(ev, f, indent=1, default=_jsonable)
         try:
